@@ -91,12 +91,55 @@ def check_guard_span(ctx, tu, info, q, rule, only_with_putback=False):
     """O2 (also C07.W7): the in-dispatch guard spans from before the take to after the put-back. For C07 this is what makes the silent
     put-back harmless: the wait predicate contains "!emptyQueue()", which the guard keeps true while events are away, so no waiter can
     have gone to sleep on a queue that the put-back then refills without a notify."""
+    members = {g.id: g for g in info.members(q)}
+    memo = {}
+
+    def moves(g, depth=0):
+        """(takes events out of queueList, puts events back into it) - directly or through member helpers it calls."""
+        if g.id in memo:
+            return memo[g.id]
+        memo[g.id] = (False, False)
+        t = b = False
+        for w in info.writes(g):
+            if w['path'][-1:] != ('.queueList',) or w['path'][0] != 'this':
+                continue
+            how = w['how']
+            meth = how.split(':', 1)[1].split('::')[-1] if ':' in how else how
+            if (how.startswith('arg:') and meth in ('splice', 'swap')) or (how.startswith('call:') and meth == 'swap'):
+                t = True
+            elif how.startswith('call:') and meth in ADD_METHODS:
+                b = True
+        if depth < 4:
+            for n in g.calls():
+                for h in g.callee_fns(n):
+                    if h.id in members and h.id != g.id and h.kind == 'method':
+                        ht, hb = moves(h, depth + 1)
+                        t, b = t or ht, b or hb
+        memo[g.id] = (t, b)
+        return memo[g.id]
+
     for f in info.members(q):
         if is_lifetime(f) or f.kind == 'lambda':
             continue
         ws = info.writes(f)
         takes = []
         putbacks = []
+        # a member helper that takes / puts back counts at its call site (the function may be split into steps)
+        for n in f.calls():
+            for h in f.callee_fns(n):
+                if h.id in members and h.id != f.id and h.kind == 'method' and h.access in ('private', 'protected'):
+                    ht, hb = moves(h)
+                    if ht:
+                        takes.append({'pos': f.pos(n), 'node': n, 'path': ('this', '.queueList'), 'how': 'helper:' + h.name})
+                    if hb:
+                        putbacks.append({'pos': f.pos(n), 'node': n, 'path': ('this', '.queueList'), 'how': 'helper:' + h.name})
+        if takes or putbacks:
+            pass
+        # a non-public step every call site of which already holds the guard is judged at those call sites
+        if f.access in ('private', 'protected') and f.kind == 'method':
+            cs = [(g, n) for (g, n) in tu.callers().get(f.id, []) if g.id in members or (g.outermost().id in members)]
+            if cs and all(any(last_field(p) == 'queueEmptyCounter' for p in info.scopes(g).held_must(g.pos(n), 'guard')) for (g, n) in cs):
+                continue
         for w in ws:
             if w['path'][-1:] != ('.queueList',) or w['path'][0] != 'this':
                 continue
